@@ -163,7 +163,7 @@ def run_shard(ctx):
             blob = open(os.path.join(bdir, f), "rb").read()
             for secs in (None, [".text"], [".plt", ".plt.got"], [".init", ".text"], [".nosuch"]):
                 judge(ctx, ws, blob, secs, "fixture:" + f, [".text", ".init"], [".text", ".init", ".data"])
-    n = ctx.share(200, 5000)
+    n = ctx.share(250, 20000)
     for _ in range(n):
         blob, secs, bits = objd.random_object(rng, size=(60, 600))
         exec_names = [s.name for s in secs if s.exec_]
